@@ -23,7 +23,9 @@ echo "build: [$build] existing-failures: [$existing]"
 echo "demo without change: $demo_wo"
 echo "demo with change:    $demo_w"
 # run the check against /repo with the change
-cd /repo && git apply $SD/patch.diff && (cd /verif && mkdir -p /tmp/seedout-$ID && bin/gocv check --property $PROP --out /tmp/seedout-$ID 2>&1 | grep -E "^FAILED|^gocv" | cut -c1-200 > /tmp/seedout-$ID/result.txt); git -C /repo checkout -q -- . ; cat /tmp/seedout-$ID/result.txt
+# (a scratch copy of /repo's working tree is used so that several seeds can be checked at once;
+# the recorded command is the equivalent one on /repo itself)
+rm -rf /tmp/seedrepo-$ID && mkdir -p /tmp/seedrepo-$ID /tmp/seedout-$ID && rsync -a --exclude .git /repo/ /tmp/seedrepo-$ID/ && (cd /tmp/seedrepo-$ID && patch -s -p1 < $SD/patch.diff) && (cd /verif && bin/gocv check --property $PROP --repo /tmp/seedrepo-$ID --out /tmp/seedout-$ID 2>&1 | grep -E "^FAILED|^gocv|replayed" | cut -c1-200 > /tmp/seedout-$ID/result.txt); rm -rf /tmp/seedrepo-$ID; cat /tmp/seedout-$ID/result.txt
 mkdir -p /verif/seeded/$ID && cp $SD/patch.diff /verif/seeded/$ID/ && cp $SD/zz_demo_test.go /verif/seeded/$ID/ && cp $SD/NOTES.md /verif/seeded/$ID/ 2>/dev/null
 caught=$(grep -c "^FAILED" /tmp/seedout-$ID/result.txt)
 python3 - "$ID" "$PROP" "$PKG" "$demo_wo" "$demo_w" "$existing" "$caught" <<'PY'
